@@ -13,6 +13,7 @@
 //   b<i>:<item>/<item>/..  a batch of extended messages sent in ONE segment (< 500 bytes):
 //                   H<fields>   extension handshake (id 0); fields comma separated, each optional:
 //                               x<Z> m::ut_pex, m<Z> m::ut_metadata, p<Z> p, s<Z> metadata_size
+//                   X<hex>      an incoming ut_pex message with 'added' = these bytes (generated for private torrents only)
 //                   M<e>.<t>.<p> extended message with id byte e and { msg_type t, piece p }
 //                               (e = 2, t = 0: a ut_metadata request)
 //   t               every connected peer sends a keep-alive, then virtual time moves just past the
@@ -199,7 +200,8 @@ static std::string snapshot(Session& S, torrent::Download dl, Torrent* /*unused*
   std::string list;
   for (auto& a : main->m_ut_pex_list) list += std::string((const char*)&a, 6);
   list = canon_entries(list);
-  o += "D[sp=" + std::to_string(main->info()->size_pex()) + " pa=" + (main->info()->is_pex_active() ? "1" : "0") + " list=" + hex(list) + "]";
+  o += "D[sp=" + std::to_string(main->info()->size_pex()) + " pa=" + (main->info()->is_pex_active() ? "1" : "0") + " list=" + hex(list) +
+       " av=" + std::to_string(dl.peer_list()->available_list_size()) + "]";
   return o;
 }
 
@@ -251,7 +253,8 @@ static std::string run_case(Session& S, const std::string& line) {
       S.advance_us((d < 0 ? 0 : d) + 1);
     } while (S.tick_count() % 4 != 0);
   };
-  to_pex_tick();
+  // notick=1: the scenario starts in the start-up window, before the download's first 2-minute tick
+  if (!(kv.count("notick") && kv["notick"] == "1")) to_pex_tick();
 
   std::map<int, Peer> peers;
   std::string out;
@@ -368,6 +371,10 @@ static std::string run_case(Session& S, const std::string& line) {
               if (!fp.empty()) msg += benc_int_field("p", fp);
               msg += "e";
               batch += WirePeer::extended(0, msg);
+            } else if (!item.empty() && item[0] == 'X') {
+              // X<hex>: an incoming ut_pex message (our id for ut_pex is 1) whose 'added' is these bytes
+              std::string added = unhex(item.substr(1));
+              batch += WirePeer::extended(torrent::ProtocolExtension::UT_PEX, "d5:added" + std::to_string(added.size()) + ":" + added + "e");
             } else if (!item.empty() && item[0] == 'M') {
               std::string f = item.substr(1);
               size_t a = f.find('.'), c = f.find('.', a + 1);
